@@ -137,6 +137,16 @@ def c10():
         rc_ = VI.restore(dcopy); bad = same_state(at3, state_of(rc_), skip=("policy",))
         if bad: R.fail("c10.restore_reads_the_given_directory", f"restore(copy) does not return the state held by the copy: {bad}", dict(history="solve(3); copy; solve(3); restore(copy)"), dict(iteration=int(rc_.iteration)), dict(iteration=3))
     except Exception as ex: R.fail("c10.restore_reads_the_given_directory", f"restore(copy) raised {type(ex).__name__}", dict(history="solve(3); copy; solve(3); restore(copy)"), str(ex)[:200])
+    # one configuration object re-used for two solvers on different problems: each directory restores to ITS problem
+    from mdpax.solvers.value_iteration import ValueIterationConfig
+    shared = ValueIterationConfig(gamma=0.9, epsilon=1e-3, verbose=0, checkpoint_frequency=2); R.case(("shared_config_object",), dict(history="one ValueIterationConfig re-used for Forest(p=0.1) then Forest(p=0.4); restore(second directory)"))
+    for pf in (0.1, 0.4):
+        shared.checkpoint_dir = os.path.join(base, f"c10_sweep_{pf}"); sw = VI(problem=Forest(S=5, p=pf), config=shared); sw.solve(4); wait(sw)
+    try:
+        rs = VI.restore(os.path.join(base, "c10_sweep_0.4"), new_checkpoint_dir=os.path.join(base, "c10_sweep_r"))
+        if abs(float(rs.problem.p) - 0.4) > 1e-12 or not np.array_equal(np.asarray(rs.values), np.asarray(sw.values)):
+            R.fail("c10.restored_problem_is_the_saved_one", "restore() rebuilds another problem than the one the checkpoint was written for", dict(history="shared config object, Forest(p=0.1) then Forest(p=0.4); restore(second)"), float(rs.problem.p), 0.4)
+    except Exception as ex: R.fail("c10.restored_problem_is_the_saved_one", f"restore raised {type(ex).__name__}", dict(history="shared config object"), str(ex)[:200])
     # an override of 0 (= checkpointing disabled for the continued run) is an override like any other
     listing = sorted(os.listdir(d)); r0 = VI.restore(d, checkpoint_frequency=0); R.case(("override_zero",), dict(checkpoint_frequency=0)); r0.solve(3); wait(r0)
     if r0.checkpoint_frequency != 0 or sorted(os.listdir(d)) != listing: R.fail("c10.overrides_effective", "restore(checkpoint_frequency=0) is ignored: the restored solver keeps the saved frequency and writes into the original directory", dict(checkpoint_frequency_override=0, saved_frequency=2), dict(frequency=r0.checkpoint_frequency, listing=sorted(os.listdir(d))), dict(frequency=0, listing=listing))
